@@ -49,13 +49,18 @@ func runC03(r *core.Run) (bool, string) {
 		return false, "interpreter calibration failed: no verdicts issued"
 	}
 	rng := core.NewRng(r.Seed, "c03")
-	npk := r.Pick(4, 40)
+	npk := r.Pick(5, 40)
 	per := r.Pick(6, 10)
 	var cps []*gen.ConcPackage
 	var pkgs []*gorun.Pkg
 	for i := 0; i < npk; i++ {
 		name := fmt.Sprintf("c%d", i)
-		cp := gen.ConcurrentPackage(rng.Fork(name), name, per)
+		// the first packages sweep the template families in order (every family in every run), the rest draw at random
+		first := -1
+		if i*per < gen.NumConcTemplates+per {
+			first = i * per
+		}
+		cp := gen.ConcurrentPackageFrom(rng.Fork(name), name, per, first)
 		cps = append(cps, cp)
 		pkgs = append(pkgs, &gorun.Pkg{Name: name, Files: map[string]string{name + ".go": cp.Source}})
 	}
